@@ -11,6 +11,9 @@ contract("C01.check_tag_exists_in_schema", file=F, func="TagValidator.check_tag_
                "ext_ok": "has_attr(original_tag, 'extensionAllowed')"},
          ensures={
              "C01.exists.known_or_value_tag_is_silent": "(len(result) == 0) == plain",
+             "C01.exists.reported_as_set": "implies(not plain and not ext_ok, any_in(result, lambda x: x.severity == 1 and"
+                                           " (x.code == 'TAG_EXTENSION_INVALID' or x.code == 'PLACEHOLDER_INVALID')))",
+             "C01.exists.errors_only_when_forbidden": "all_in(result, lambda x: x.severity >= 10 or (not plain and not ext_ok))",
              "C01.exists.forbidden_extension_is_error": "implies(not plain and not ext_ok, len(result) == 1 and result[0].severity == 1"
                                                         " and result[0].code == ('PLACEHOLDER_INVALID' if '#' in original_tag.extension"
                                                         " else 'TAG_EXTENSION_INVALID'))",
@@ -22,11 +25,15 @@ contract("C01.check_tag_exists_in_schema", file=F, func="TagValidator.check_tag_
 contract("C01.check_tag_requires_child", file=F, func="TagValidator.check_tag_requires_child",
          params=T, returns="List[Issue]", enc="native",
          ensures={"C01.requires_child.iff": "(len(result) > 0) == has_attr(original_tag, 'requireChild')",
+                  "C01.requires_child.reported": "implies(has_attr(original_tag, 'requireChild'),"
+                                                 " any_in(result, lambda x: x.code == 'TAG_REQUIRES_CHILD' and x.severity == 1))",
+                  "C01.requires_child.only_that": "all_in(result, lambda x: x.code == 'TAG_REQUIRES_CHILD' and has_attr(original_tag, 'requireChild'))",
                   "C01.requires_child.code": "all(result[k].code == 'TAG_REQUIRES_CHILD' and result[k].severity == 1 for k in range(len(result)))"})
 
 contract("C01.check_tag_is_deprecated", file=F, func="TagValidator.check_tag_is_deprecated",
          params={"self": "Opaque", "original_tag": "HedTag"}, returns="List[Issue]", enc="native",
          ensures={"C01.deprecated.iff": "(len(result) > 0) == has_attr(original_tag, 'deprecatedFrom')",
+                  "C01.deprecated.warning_only": "all_in(result, lambda x: x.severity == 10)",
                   "C01.deprecated.is_warning": "all(result[k].code == 'ELEMENT_DEPRECATED' and result[k].severity == 10 for k in range(len(result)))"})
 
 contract("C01.check_for_placeholder", file=F, func="TagValidator.check_for_placeholder",
@@ -38,12 +45,18 @@ contract("C01.check_for_placeholder", file=F, func="TagValidator.check_for_place
          ensures={
              "C01.placeholder.one_issue_per_hash": "len(result) == (0 if is_definition else count_char(original_tag.extension, '#', len(original_tag.extension)))",
              "C01.placeholder.code": "all(result[k].code == 'PLACEHOLDER_INVALID' and result[k].severity == 1 for k in range(len(result)))",
+             "C01.placeholder.reported_as_set": "implies(not is_definition and '#' in original_tag.extension,"
+                                                " any_in(result, lambda x: x.code == 'PLACEHOLDER_INVALID' and x.severity == 1))",
+             "C01.placeholder.only_when_present": "implies(is_definition or '#' not in original_tag.extension, len(result) == 0)",
              # C12: the tag-relative offsets select exactly the offending '#'
              "C12.placeholder.offsets_select_the_hash": "all(original_tag.tag[result[k].index_in_tag] == '#'"
                                                         " and result[k].index_in_tag_end == result[k].index_in_tag + 1 for k in range(len(result)))",
          },
          loops={0: {"invariant": [
              "len(validation_issues) == count_char(original_tag.extension, '#', _n)",
+             "implies(any(original_tag.extension[j] == '#' for j in range(_n)),"
+             " any_in(validation_issues, lambda x: x.code == 'PLACEHOLDER_INVALID' and x.severity == 1))",
+             "implies(all(original_tag.extension[j] != '#' for j in range(_n)), len(validation_issues) == 0)",
              "all(validation_issues[k].code == 'PLACEHOLDER_INVALID' and validation_issues[k].severity == 1 for k in range(len(validation_issues)))",
              "all(original_tag.tag[validation_issues[k].index_in_tag] == '#'"
              " and validation_issues[k].index_in_tag_end == validation_issues[k].index_in_tag + 1 for k in range(len(validation_issues)))"]}})
